@@ -315,6 +315,31 @@ func %(fnname)s() *Group {
 		P: fp.Modulus(), R: fr.Modulus(),
 		Gen: repAff(&gen), A1: a.BigInt(new(big.Int)), B1: b.BigInt(new(big.Int)),
 	}
+	g.Lib = func(r Rep) any {
+		switch r.Sys {
+		case "aff":
+			p := aff(r)
+			return &p
+		case "jac":
+			p := jac(r)
+			return &p
+		case "ext":
+			p := ext(r)
+			return &p
+		}
+		panic("bad system")
+	}
+	g.FromLib = func(p any) Rep {
+		switch t := p.(type) {
+		case *%(A)s:
+			return repAff(t)
+		case *%(J)s:
+			return repJac(t)
+		case *%(X)s:
+			return repExt(t)
+		}
+		panic("bad type")
+	}
 	g.Ops = []Op{
 %(ops)s
 	}%(extra)s
